@@ -30,7 +30,8 @@ def run_muxconc(ctx, pid, floor):
         return t
     out = os.path.join(ctx["work"], "run_w" if ctx["widen"] else "run")
     vlib.run(["rm", "-rf", out])
-    cmd = [binp, "-seed", str(ctx["seed"]), "-tier", ctx["tier"], "-out", out, "-only", pid]
+    cmd = [binp, "-seed", str(ctx["seed"]), "-tier", ctx["tier"], "-out", out, "-only", pid,
+           "-corpus", os.path.join(vlib.VERIF, "findings")]
     if ctx["widen"]:
         cmd += ["-scale", "3"]
     if ctx["replay"]:
@@ -73,8 +74,7 @@ META = {
     "assumptions": [
         "Low-Latency variant; ids below 2^64-2 (in_range); rotations never fail (no storage error injection)",
         "the property is read with the design's one-segment tolerance: the head of the window counts as expired",
-        "partial: ready_complete excludes F3a/F3b inputs, ready_sound excludes F11 inputs, no_directives excludes queries "
-        "url.ParseQuery rejects (F9); progress theorems are stated for the Low-Latency variant (path-table invariant)",
+        "the progress and preload-hint theorems are stated for the Low-Latency variant (path-table invariant hint_prop)",
     ],
 }
 
